@@ -134,7 +134,8 @@ def _classes():
         def __getitem__(self, key):
             if isinstance(key, SymSel):
                 return pts(key.syms)
-            return np.asarray(np.ndarray.__getitem__(self, key))
+            r = np.ndarray.__getitem__(self, key)
+            return r.view(np.ndarray) if isinstance(r, np.ndarray) else r
 
     class SymArr(np.ndarray):
         """Object array returned by a cut point; `lin = (a, b, n)` when it is a complete np.linspace."""
@@ -154,7 +155,8 @@ def _classes():
                     else:
                         out[idx] = Sym(Expr("index", id(self), E(k)))      # not emittable (ascat, symbolic run)
                 return out
-            return np.asarray(np.ndarray.__getitem__(self, key))
+            r = np.ndarray.__getitem__(self, key)
+            return r.view(np.ndarray) if isinstance(r, np.ndarray) else r
 
     def pts(syms):
         a = np.empty((len(syms),), dtype=object)
@@ -459,7 +461,24 @@ def generate():
 
 # ------------------------------------------------------------------ proof obligations (static list)
 # T-C obligations of C19: `EQUIV = dict(symtrace_instr.EQUIV_INSTR)` in props/c19.py
-EQUIV_INSTR = {}
+EQUIV_INSTR = {
+    'PV.Equiv.Instr': [
+        'fovs_structure', 'times_structure', 'timesNs_structure', 'fovsOf_succ', 'fovsOf_line', 'timesOf_succ',
+        'timesOf_line', 'viirsFovs_structure', 'viirsTimes_structure', 'viirsOf_line', 'resamp_length_only', 'linspaceK_eq',
+        'avhrr_fovs_n1', 'avhrr_fovs_n2', 'avhrr_fovs_n3', 'avhrr_times_n1', 'avhrr_times_n2', 'avhrr_times_n3',
+        'avhrr_arrays', 'avhrr_gac_fovs_n1', 'avhrr_gac_fovs_n2', 'avhrr_gac_fovs_n3', 'avhrr_gac_times_n1',
+        'avhrr_gac_times_n2', 'avhrr_gac_times_n3', 'avhrr_gac_arrays', 'amsua_fovs_n1', 'amsua_fovs_n2', 'amsua_fovs_n3',
+        'amsua_times_n1', 'amsua_times_n2', 'amsua_times_n3', 'amsua_arrays', 'mhs_fovs_n1', 'mhs_fovs_n2', 'mhs_fovs_n3',
+        'mhs_times_n1', 'mhs_times_n2', 'mhs_times_n3', 'mhs_arrays', 'hirs4_fovs_n1', 'hirs4_fovs_n2', 'hirs4_fovs_n3',
+        'hirs4_times_n1', 'hirs4_times_n2', 'hirs4_times_n3', 'hirs4_arrays', 'mwhs2_fovs_n1', 'mwhs2_fovs_n2',
+        'mwhs2_fovs_n3', 'mwhs2_times_n1', 'mwhs2_times_n2', 'mwhs2_times_n3', 'mwhs2_arrays', 'atms_fovs_n1',
+        'atms_fovs_n2', 'atms_fovs_n3', 'atms_times_n1', 'atms_times_n2', 'atms_times_n3', 'atms_arrays', 'ascat_times_n1',
+        'ascat_times_n2', 'ascat_times_n3', 'ascat_fovs_full_n1', 'ascat_fovs_full_n2', 'ascat_arrays', 'olci_fovs_n2_m1',
+        'olci_fovs_n1_m2', 'olci_fovs_n2_m3', 'olci_times_n2_m1', 'olci_times_n1_m2', 'olci_times_n2_m3',
+        'slstr_fovs_n2_m1', 'slstr_fovs_n1_m2', 'slstr_fovs_n2_m3', 'slstr_times_n2_m1', 'slstr_times_n1_m2',
+        'slstr_times_n2_m3', 'viirs_fovs_n1', 'viirs_fovs_n2', 'viirs_times_n1', 'viirs_times_n2', 'viirs_arrays',
+        'scan_geometry_fovs', 'scan_geometry_ns_floor', 'scan_geometry_times'],
+}
 
 
 if __name__ == "__main__":
